@@ -2,7 +2,7 @@
    (all trip counts, all branch outcomes), and a program whose conflicting pairs are all guarded
    has conflict-free phases on every path, so that drf_phases / machine_result apply. *)
 From Snax Require Import Base.Prelude Base.ListAux Model.MultiCore Model.C13SyncBarrier Model.C13Paths
-  Proofs.MultiCoreCommute.
+  Proofs.MultiCoreCommute Proofs.C13SyncBarrierProofs.
 
 Section RInd.
   Variable P : rstmt -> Prop.
@@ -108,6 +108,32 @@ Section PathSafe.
     intros prog Hg. apply (list_safe' prog); [|exact Hg].
     apply Forall_forall. intros s _. apply stmt_safe'.
   Qed.
+
+  (* the outermost block (executed once) *)
+  Lemma top_safe : forall l, guardedl_top X U l = true ->
+    (forall o ctx, scanb X U false (rrunl o l ctx) <> None) /\
+    (bar_follows_top U l = true -> forall o ctx, scanb X U true (rrunl o l ctx) <> None).
+  Proof.
+    induction l as [|x r IH]; intros Hg; [split; intros; simpl; discriminate|].
+    cbn [guardedl_top] in Hg. apply andb_true_iff in Hg as [Hgx Hgr]. destruct (IH Hgr) as [IH1 IH2].
+    destruct x as [id core bar rd wr | id b | id t e].
+    - split.
+      + intros o ctx. cbn [rrunl rrun]. destruct bar; simpl.
+        * apply IH1.
+        * unfold opid. simpl. rewrite andb_false_r. simpl.
+          destruct (id =? X) eqn:E; simpl in Hgx; [apply IH2; exact Hgx | apply IH1].
+      + intros Hb o ctx. cbn [bar_follows_top] in Hb. cbn [rrunl rrun]. destruct bar; simpl.
+        * apply IH1.
+        * unfold opid. simpl. destruct (id =? U) eqn:E; [discriminate|]. simpl. apply IH2. exact Hb.
+    - split; [|discriminate]. intros o ctx. cbn [rrunl]. rewrite scanb_app.
+      pose proof (stmt_safe' (RFor id b) Hgx o ctx) as Hq. rewrite Hq. apply IH1.
+    - split; [|discriminate]. intros o ctx. cbn [rrunl]. rewrite scanb_app.
+      pose proof (stmt_safe' (RIf id t e) Hgx o ctx) as Hq. rewrite Hq. apply IH1.
+  Qed.
+
+  Theorem guarded_top_path_safe : forall prog, guardedl_top X U prog = true ->
+    forall o, scanb X U false (rrunl o prog []) <> None.
+  Proof. intros prog Hg o. apply (proj1 (top_safe prog Hg)). Qed.
 End PathSafe.
 
 (* ---- from path safety to conflict-free phases ------------------------------------------------------- *)
@@ -212,7 +238,7 @@ Proof.
   { unfold static_conflict. unfold specific in Sa, Sb. rewrite Sa, Sb. simpl.
     replace (o_core a =? o_core b) with false by (symmetry; apply Z.eqb_neq; exact Hc). simpl.
     destruct a, b. exact Ecf. }
-  rewrite Hs in Hall. simpl in Hall. rewrite (guarded_path_safe _ _ prog Hall o []). discriminate.
+  rewrite Hs in Hall. simpl in Hall. apply (guarded_top_path_safe _ _ prog Hall o).
 Qed.
 
 (* ... hence (drf_phases) every interleaving of the cores inside the phases of that path computes
@@ -225,4 +251,200 @@ Proof.
   intros prog Hall o ss m Hs. apply drf_phases; [|exact Hs].
   apply Forall_forall. intros ph Hph. apply in_map_iff in Hph as [ph0 [<- H0]].
   pose proof (all_guarded_phases_drf prog Hall o) as Hf. rewrite Forall_forall in Hf. apply Hf. exact H0.
+Qed.
+
+(* ---- end to end for straight-line functions: what the pass produces IS guarded ----------------------- *)
+Lemma guardedl_top_noX X U : forall l, (forall z, In z l -> is_sync z = true \/ oi_id z <> X) ->
+  guardedl_top X U (map leaf_of l) = true.
+Proof.
+  induction l as [|z r IH]; intros H; [reflexivity|]. cbn [map guardedl_top leaf_of].
+  rewrite IH by (intros w Hw; apply H; right; exact Hw). rewrite andb_true_r.
+  destruct (H z (or_introl eq_refl)) as [Hs|Hn]; [rewrite Hs, andb_false_r; reflexivity|].
+  replace (oi_id z =? X) with false by (symmetry; apply Z.eqb_neq; exact Hn). reflexivity.
+Qed.
+
+Lemma guardedl_top_split X U : forall A x B,
+  (forall z, In z A -> is_sync z = true \/ oi_id z <> X) ->
+  (forall z, In z B -> is_sync z = true \/ oi_id z <> X) ->
+  bar_follows_top U (map leaf_of B) = true ->
+  guardedl_top X U (map leaf_of (A ++ x :: B)) = true.
+Proof.
+  induction A as [|z r IH]; intros x B HA HB Hbf.
+  - cbn [app map guardedl_top leaf_of]. rewrite (guardedl_top_noX X U B HB), andb_true_r.
+    destruct ((oi_id x =? X) && negb (is_sync x)); [exact Hbf | reflexivity].
+  - cbn [app map guardedl_top leaf_of]. rewrite IH; [|intros w Hw; apply HA; right; exact Hw | exact HB | exact Hbf].
+    rewrite andb_true_r. destruct (HA z (or_introl eq_refl)) as [Hs|Hn]; [rewrite Hs, andb_false_r; reflexivity|].
+    replace (oi_id z =? X) with false by (symmetry; apply Z.eqb_neq; exact Hn). reflexivity.
+Qed.
+
+Lemma bar_follows_top_noU U : forall l, (forall z, In z l -> is_sync z = true \/ oi_id z <> U) ->
+  bar_follows_top U (map leaf_of l) = true.
+Proof.
+  induction l as [|z r IH]; intros H; [reflexivity|]. cbn [map bar_follows_top leaf_of].
+  destruct (is_sync z) eqn:Es; [reflexivity|].
+  destruct (H z (or_introl eq_refl)) as [Hs|Hn]; [congruence|].
+  replace (oi_id z =? U) with false by (symmetry; apply Z.eqb_neq; exact Hn).
+  apply IH. intros w Hw. apply H. right. exact Hw.
+Qed.
+
+Lemma bar_follows_top_sync U : forall seg rest,
+  (exists s, In s seg /\ is_sync s = true) -> (forall z, In z seg -> is_sync z = true \/ oi_id z <> U) ->
+  bar_follows_top U (map leaf_of (seg ++ rest)) = true.
+Proof.
+  induction seg as [|z r IH]; intros rest [s [Hs Hss]] H; [destruct Hs|].
+  cbn [app map bar_follows_top leaf_of]. destruct (is_sync z) eqn:Es; [reflexivity|].
+  destruct (H z (or_introl eq_refl)) as [Hz|Hn]; [congruence|].
+  replace (oi_id z =? U) with false by (symmetry; apply Z.eqb_neq; exact Hn).
+  apply IH.
+  - destruct Hs as [<-|Hs]; [congruence|]. exists s. split; assumption.
+  - intros w Hw. apply H. right. exact Hw.
+Qed.
+
+Lemma in_insert_syncs_inv bars l z : In z (insert_syncs bars l) -> In z l \/ is_sync z = true.
+Proof.
+  unfold insert_syncs. intros H. apply in_flat_map in H as [y [Hy Hz]].
+  destruct (memb (oi_id y) bars); simpl in Hz.
+  - destruct Hz as [<-|[<-|[]]]; [right; reflexivity | left; exact Hy].
+  - destruct Hz as [<-|[]]. left. exact Hy.
+Qed.
+
+Lemma in_run_pass_orig flat z : In z (run_pass flat) -> In z flat \/ is_sync z = true.
+Proof. apply in_insert_syncs_inv. Qed.
+
+(* straight-line function: every op is a direct child of the function body; op ids distinct *)
+Definition straight (p0 : Z) (flat : list opinfo) : Prop :=
+  (forall y, In y flat -> oi_parent y = p0) /\ NoDup (map oi_id flat).
+
+Lemma shares_of_conflict x u :
+  conflictb (mkOp [] (core_of x) [] (oi_operands x)) (mkOp [] (core_of u) [] (oi_operands u)) = true ->
+  shares x u = true.
+Proof.
+  intros H. unfold conflictb in H. simpl in H. apply negb_true_iff in H. apply andb_false_iff in H.
+  assert (Hex : exists v, In v (oi_operands x) /\ In v (oi_operands u)).
+  { destruct H as [H|H].
+    - destruct (existsb (fun v => memb v (oi_operands u)) (oi_operands x)) eqn:E.
+      + apply existsb_exists in E as [v [H1 H2]]. apply memb_true in H2. eauto.
+      + exfalso. assert (Hd : disjointb (oi_operands x) (oi_operands u) = true); [|congruence].
+        apply disjointb_true. intros v Hv Hi.
+        assert (Hx : existsb (fun v => memb v (oi_operands u)) (oi_operands x) = true); [|congruence].
+        apply existsb_exists. exists v. split; [exact Hv | apply memb_true; exact Hi].
+    - exfalso. assert (Hd : disjointb (oi_operands u) [] = true); [|congruence]. apply disjointb_true. intros v _ []. }
+  destruct Hex as [v [H1 H2]]. unfold shares. apply existsb_exists. exists v.
+  split; [apply in_or_app; left; exact H1 | apply memb_true; exact H2].
+Qed.
+
+Lemma two_positions {A} (l : list A) x u : In x l -> In u l -> x <> u ->
+  exists l1 l2 l3, l = l1 ++ x :: l2 ++ u :: l3 \/ l = l1 ++ u :: l2 ++ x :: l3.
+Proof.
+  intros Hx Hu Hne. apply in_split in Hx as [a [b ->]]. apply in_app_or in Hu as [Hu|[Hu|Hu]]; [|congruence|].
+  - apply in_split in Hu as [a1 [a2 ->]]. exists a1, a2, b. right. rewrite <- app_assoc. reflexivity.
+  - apply in_split in Hu as [b1 [b2 ->]]. exists a, b1, b2. left. reflexivity.
+Qed.
+
+Lemma ids_distinct_3 (l1 : list opinfo) x l2 u l3 : NoDup (map oi_id (l1 ++ x :: l2 ++ u :: l3)) ->
+  oi_id x <> oi_id u /\
+  (forall z, In z l1 \/ In z l2 \/ In z l3 -> oi_id z <> oi_id x /\ oi_id z <> oi_id u).
+Proof.
+  intros Hn.
+  assert (Hgen : forall (l : list opinfo) a b, NoDup (map oi_id l) -> In a l -> In b l -> oi_id a = oi_id b -> a = b).
+  { induction l as [|y r IH]; intros a b Hd Ha Hb E; [destruct Ha|]. simpl in Hd. inversion Hd; subst.
+    destruct Ha as [->|Ha], Hb as [->|Hb]; [reflexivity | | | apply IH; assumption].
+    - exfalso. apply H1. rewrite E. apply in_map. exact Hb.
+    - exfalso. apply H1. rewrite <- E. apply in_map. exact Ha. }
+  set (L := l1 ++ x :: l2 ++ u :: l3) in *.
+  assert (Ix : In x L) by (unfold L; apply in_or_app; right; left; reflexivity).
+  assert (Iu : In u L) by (unfold L; apply in_or_app; right; right; apply in_or_app; right; left; reflexivity).
+  (* positions differ: use the NoDup of the id list directly *)
+  assert (Hids : NoDup (map oi_id l1 ++ oi_id x :: map oi_id l2 ++ oi_id u :: map oi_id l3)).
+  { unfold L in Hn. rewrite map_app in Hn. simpl in Hn. rewrite map_app in Hn. simpl in Hn. exact Hn. }
+  pose proof (NoDup_remove_2 _ _ _ Hids) as Nx.
+  assert (Hids2 : NoDup ((map oi_id l1 ++ oi_id x :: map oi_id l2) ++ oi_id u :: map oi_id l3)).
+  { rewrite <- app_assoc. simpl. exact Hids. }
+  pose proof (NoDup_remove_2 _ _ _ Hids2) as Nu.
+  split.
+  - intros E. apply Nx. apply in_or_app. right. apply in_or_app. right. left. symmetry. exact E.
+  - intros z Hz. split; intros E.
+    + apply Nx. rewrite <- E. destruct Hz as [Hz|[Hz|Hz]].
+      * apply in_or_app. left. apply in_map. exact Hz.
+      * apply in_or_app. right. apply in_or_app. left. apply in_map. exact Hz.
+      * apply in_or_app. right. apply in_or_app. right. right. apply in_map. exact Hz.
+    + apply Nu. rewrite <- E. destruct Hz as [Hz|[Hz|Hz]].
+      * apply in_or_app. left. apply in_or_app. left. apply in_map. exact Hz.
+      * apply in_or_app. left. apply in_or_app. right. right. apply in_map. exact Hz.
+      * apply in_or_app. right. apply in_map. exact Hz.
+Qed.
+
+(* for every straight-line function (any ops in any order, existing barriers, deallocs): after the
+   pass, every pair of ops of the DM and the compute core that use a common SSA value is guarded *)
+Theorem straightline_pass_all_guarded : forall p0 flat, straight p0 flat ->
+  all_guarded (map leaf_of (run_pass flat)) = true.
+Proof.
+  intros p0 flat [Hpar Hnd]. unfold all_guarded. apply forallb_forall. intros a Ha. apply forallb_forall. intros b Hb.
+  destruct (static_conflict a b) eqn:Esc; [|reflexivity]. simpl.
+  assert (Hleaf : forall c, In c (leavesl (map leaf_of (run_pass flat))) ->
+            exists y, In y (run_pass flat) /\ is_sync y = false /\ c = (oi_id y, core_of y, [], oi_operands y)).
+  { intros c Hc. unfold leavesl in Hc. apply in_flat_map in Hc as [s [Hs Hc]]. apply in_map_iff in Hs as [y [<- Hy]].
+    unfold leaf_of in Hc. simpl in Hc. destruct (is_sync y) eqn:Es; [destruct Hc|]. destruct Hc as [<-|[]].
+    exists y. repeat split; assumption. }
+  destruct (Hleaf a Ha) as [x [Hx [Sx ->]]]. destruct (Hleaf b Hb) as [u [Hu [Su ->]]]. cbn [fst].
+  unfold static_conflict in Esc. apply andb_true_iff in Esc as [Esc Ecf]. apply andb_true_iff in Esc as [Esc Ene].
+  apply andb_true_iff in Esc as [Cx Cu]. apply negb_true_iff in Ene. apply Z.eqb_neq in Ene.
+  assert (Ox : In x flat) by (destruct (in_run_pass_orig flat x Hx) as [H|H]; [exact H | congruence]).
+  assert (Ou : In u flat) by (destruct (in_run_pass_orig flat u Hu) as [H|H]; [exact H | congruence]).
+  assert (Hms : must_sync x u = true).
+  { unfold must_sync. rewrite (shares_of_conflict x u Ecf), andb_true_r. unfold cross_core, is_dm, is_compute.
+    unfold core_of in Cx, Cu, Ene. destruct (oi_kind x), (oi_kind u); simpl in *; try reflexivity; try discriminate; congruence. }
+  assert (Hxu : x <> u) by (intros ->; apply Ene; reflexivity).
+  destruct (two_positions flat x u Ox Ou Hxu) as [l1 [l2 [l3 [E|E]]]].
+  - (* x before u *)
+    rewrite E in Hnd. destruct (ids_distinct_3 l1 x l2 u l3 Hnd) as [Nxu Nz].
+    assert (Hseg : seg_ok flat (oi_parent x) (l2 ++ [u]) = true).
+    { unfold seg_ok. apply forallb_forall. intros y Hy. apply orb_true_iff. left. apply Z.eqb_eq.
+      rewrite (Hpar x Ox). apply Hpar. rewrite E. apply in_or_app. right. right.
+      apply in_app_or in Hy as [Hy|[<-|[]]]; apply in_or_app; [left; exact Hy | right; left; reflexivity]. }
+    destruct (barrier_between_ssa_deps_partial flat l1 x l2 u l3 E Hms Hseg) as [_ [Hsub Hsync]].
+    rewrite (run_pass_split flat l1 x l2 u l3 E). apply guardedl_top_split.
+    + intros z Hz. apply in_app_or in Hz as [Hz|Hz].
+      * apply in_insert_syncs_inv in Hz as [Hz|Hz]; [right; apply (Nz z); left; exact Hz | left; exact Hz].
+      * destruct (memb (oi_id x) (barriers flat)); [|destruct Hz]. destruct Hz as [<-|[]]. left. reflexivity.
+    + intros z Hz. apply in_app_or in Hz as [Hz|[<-|Hz]].
+      * destruct (Hsub z Hz) as [H|H]; [right; apply (Nz z); right; left; exact H | left; exact H].
+      * right. intros E'. apply Nxu. symmetry. exact E'.
+      * apply in_insert_syncs_inv in Hz as [Hz|Hz]; [right; apply (Nz z); right; right; exact Hz | left; exact Hz].
+    + apply bar_follows_top_sync.
+      * destruct Hsync as [s [H1 [H2 _]]]. exists s. split; assumption.
+      * intros z Hz. destruct (Hsub z Hz) as [H|H]; [right; apply (Nz z); right; left; exact H | left; exact H].
+  - (* u before x: nothing that follows x has the id of u *)
+    rewrite E in Hnd. destruct (ids_distinct_3 l1 u l2 x l3 Hnd) as [Nux Nz].
+    rewrite (run_pass_split flat l1 u l2 x l3 E).
+    replace ((insert_syncs (barriers flat) l1 ++ (if memb (oi_id u) (barriers flat) then [sync_before u] else [])) ++
+             u :: out_between (barriers flat) l2 x ++ x :: insert_syncs (barriers flat) l3)
+      with (((insert_syncs (barriers flat) l1 ++ (if memb (oi_id u) (barriers flat) then [sync_before u] else [])) ++
+             u :: out_between (barriers flat) l2 x) ++ x :: insert_syncs (barriers flat) l3)
+      by (rewrite <- !app_assoc; reflexivity).
+    apply guardedl_top_split.
+    + intros z Hz. apply in_app_or in Hz as [Hz|[<-|Hz]].
+      * apply in_app_or in Hz as [Hz|Hz].
+        { apply in_insert_syncs_inv in Hz as [Hz|Hz]; [right; apply (Nz z); left; exact Hz | left; exact Hz]. }
+        { destruct (memb (oi_id u) (barriers flat)); [|destruct Hz]. destruct Hz as [<-|[]]. left. reflexivity. }
+      * right. exact Nux.
+      * unfold out_between in Hz. apply in_app_or in Hz as [Hz|Hz].
+        { apply in_insert_syncs_inv in Hz as [Hz|Hz]; [right; apply (Nz z); right; left; exact Hz | left; exact Hz]. }
+        { destruct (memb (oi_id x) (barriers flat)); [|destruct Hz]. destruct Hz as [<-|[]]. left. reflexivity. }
+    + intros z Hz. apply in_insert_syncs_inv in Hz as [Hz|Hz]; [right; apply (Nz z); right; right; exact Hz | left; exact Hz].
+    + apply bar_follows_top_noU. intros z Hz.
+      apply in_insert_syncs_inv in Hz as [Hz|Hz]; [right; apply (Nz z); right; right; exact Hz | left; exact Hz].
+Qed.
+
+(* C13 end to end for straight-line functions: on the output of insert-sync-barrier every
+   barrier-separated phase is free of DM/compute conflicts and every interleaving of the cores
+   computes the memory of the program order *)
+Theorem straightline_pass_drf : forall p0 flat, straight p0 flat ->
+  forall o ss m,
+  Forall2 schedule_of (map (filter specific) (split_phases [] (rrunl o (map leaf_of (run_pass flat)) []))) ss ->
+  meq (exec (concat ss) m)
+      (exec (concat (map (filter specific) (split_phases [] (rrunl o (map leaf_of (run_pass flat)) [])))) m).
+Proof.
+  intros p0 flat Hs o ss m H. apply all_guarded_any_interleaving; [|exact H].
+  apply (straightline_pass_all_guarded p0 flat Hs).
 Qed.
